@@ -150,6 +150,11 @@ func c12Matches(want, real c12Val) bool {
 		}
 		return true
 	}
+	if want.T == "quote" || want.T == "func" {
+		// the printed text of code is the formatter's business (C02/C03): identity up to layout (blanks)
+		strip := func(x string) string { return strings.Join(strings.Fields(x), "") }
+		return strip(strings.ReplaceAll(want.canon(), " ", "")) == strip(strings.ReplaceAll(real.canon(), " ", ""))
+	}
 	return want.canon() == real.canon()
 }
 
